@@ -233,6 +233,38 @@ impl Clients {
         }
     }
 
+    /// Verification hook, compiled only with `--cfg iroh_verif`: a read-only snapshot of the
+    /// registry.
+    ///
+    /// Returns, for every endpoint that has an entry, its active connection and its inactive
+    /// connections (oldest first), and the `sent_to` relation. Both lists are in map iteration
+    /// order; callers sort them.
+    #[cfg(iroh_verif)]
+    #[allow(clippy::type_complexity)]
+    pub fn verif_snapshot(
+        &self,
+    ) -> (
+        Vec<(EndpointId, ConnectionId, Vec<ConnectionId>)>,
+        Vec<(EndpointId, Vec<EndpointId>)>,
+    ) {
+        let clients = self
+            .0
+            .clients
+            .iter()
+            .map(|e| {
+                let inactive = e.inactive.iter().map(|c| c.connection_id()).collect();
+                (*e.key(), e.active.connection_id(), inactive)
+            })
+            .collect();
+        let sent_to = self
+            .0
+            .sent_to
+            .iter()
+            .map(|e| (*e.key(), e.value().iter().copied().collect()))
+            .collect();
+        (clients, sent_to)
+    }
+
     #[cfg(test)]
     fn active_connection_id(&self, endpoint_id: EndpointId) -> Option<ConnectionId> {
         self.0
